@@ -97,6 +97,49 @@ Theorem C16_ancient_sample_is_frozen_branch : forall ws pnu gt (g : graph R) sam
 Proof. exact ancient_is_frozen_branch. Qed.
 Print Assumptions C16_ancient_sample_is_frozen_branch.
 
+(** slice_preserves_size_functions: DemesUtil.slice at t (used when every sample is ancient) keeps every deme that is
+    older than t, with its size function on [t, inf) shifted by t - whatever the kind of the epoch that reaches t and
+    wherever that epoch ends (at the present, before the present, exactly at t); [deme_size_at] is `demes`' Deme.size_at.
+    [deme_wf]: epochs contiguous from the deme's start, positive durations, an infinite epoch is constant, sizes not 0. *)
+Theorem C16_slice_preserves_size_functions : forall (g : graph R) t d, 0 < t ->
+  In d (g_demes g) -> deme_wf d -> tlt (Fin t) (d_start d) ->
+  In (slice_deme t d) (g_demes (slice g t))
+  /\ forall u, 0 <= u -> deme_size_at (slice_deme t d) u = deme_size_at d (u + t).
+Proof. exact slice_preserves_size_functions. Qed.
+Print Assumptions C16_slice_preserves_size_functions.
+
+Theorem C16_slice_demes_are_shifted : forall (g : graph R) t d', 0 < t -> In d' (g_demes (slice g t)) ->
+  exists d, In d (g_demes g) /\ tlt (Fin t) (d_start d) /\ d' = slice_deme t d.
+Proof. exact slice_demes_are_shifted. Qed.
+
+(** ... and the migration rate in force between any two demes at any time of the retained window *)
+Theorem C16_slice_preserves_migration_rates : forall (g : graph R) t src dst u, 0 < t -> 0 <= u ->
+  mig_rate_at (slice g t) src dst u = mig_rate_at g src dst (u + t).
+Proof. exact slice_preserves_migration_rates. Qed.
+
+(** interpolating the cut epoch with its already shifted and clamped end time (0) instead of its own end violates it
+    as soon as the epoch ends before the present *)
+Theorem C16_slice_clamped_end_refuted : exists t s0 s1 x te, 0 < te <= t /\ t < x /\
+  size_at t s0 s1 (Fin x) 0 SLinear <> size_at t s0 s1 (Fin x) te SLinear.
+Proof. exact size_at_clamped_end_refuted. Qed.
+
+(** non-vacuity: a deme that grows linearly from 1 at time 4 to 4 at time 2, then is constant; sliced at 3 (inside
+    the growth epoch, which ends before the present) its last epoch ends with size 5/2 = the size at time 3 *)
+Definition growth_deme {F} `{Num F} : deme F :=
+  mkDeme 0 Inf [] [mkEpoch Inf (n2 + n2)%num n1 n1 SConstant;
+                   mkEpoch (Fin (n2 + n2)%num) n2 n1 (n2 + n2)%num SLinear;
+                   mkEpoch (Fin n2) n0 n1 n1 SConstant].
+Example C16_slice_nonvacuous :
+  deme_wf growth_deme /\ tlt (Fin 3) (d_start growth_deme) /\
+  map (fun e => (e_end e, e_s0 e, e_s1 e)) (shift_epochs (F:=Q) 3%Q (d_epochs growth_deme)) = [(1, 1, 1); (0, 1, 5 # 2)]%Q.
+Proof.
+  split; [|split].
+  - unfold deme_wf, growth_deme, tlt. cbn. numR_all. repeat split; try reflexivity; try discriminate; try lra;
+      try (apply Rleb_false; lra).
+  - reflexivity.
+  - vm_compute. reflexivity.
+Qed.
+
 (** export_import_same_program_partial.  Full statement (not proved): for every program of splits, admixture, pulses,
     remove_pop, reorder_pops and constant / exponential / linear integrations, importing the exported graph yields the
     original program up to relabelling.  Proved: the numeric content of a run of integrations (durations, size
